@@ -288,7 +288,9 @@ def run_project(job):
     """Configure one project under the baseline and every variant, in the same absolute build
     path, one after another.  Returns counts and the list of property failures."""
     p, root, fresh, hist, pidx = job
-    src, b = os.path.join(root, 'src'), os.path.join(root, 'b')
+    src = os.path.join(root, 'src')
+    # layout: build directory next to the source directory, or nested inside it (`meson setup build`)
+    b = os.path.join(src, 'build') if p.get('layout') == 'nested' else os.path.join(root, 'b')
     shutil.rmtree(root, ignore_errors=True)
     G.write_tree(src, p['files'])
     found, stats = [], {'runs': 0, 'files': 0, 'invalid': False, 'name': p['name'], 'seconds': 0.0, 'facts': {}}
@@ -401,6 +403,10 @@ def ident_of(f):
 
 
 def describe(f, p):
+    return _describe(f, p) + (' [build directory nested inside the source directory]' if p.get('layout') == 'nested' else '')
+
+
+def _describe(f, p):
     v = f['variant']
     vs = json.dumps(v) if isinstance(v, dict) else str(v)
     if f['clause'] == 'content':
@@ -414,6 +420,7 @@ def cli_stream(ctx, projects):
     jobs = []
     for i, p in enumerate(projects):
         fresh, hist = variants_for(ctx, i)
+        p.setdefault('layout', 'nested' if i % 2 == 1 else 'sibling')
         jobs.append((p, os.path.join(scratch, 'cli', 'p%03d' % i), fresh, hist, i))
     # C projects first (they take longest)
     order = sorted(range(len(jobs)), key=lambda i: (not jobs[i][0]['c'], i))
@@ -544,7 +551,9 @@ def run(ctx):
                           {'project': p, 'variant': f['variant'] if isinstance(f['variant'], dict) else {'id': str(f['variant'])},
                            'pidx': pidx, 'file': f['file'], 'detail': f['detail'],
                            'how': 'write the files of `project` to <dir>/src, then run `meson setup` with the baseline '
-                                  'environment (PYTHONHASHSEED=0) and with the variant, both into <dir>/b, and compare the file'})
+                                  'environment (PYTHONHASHSEED=0) and with the variant, both into the same build directory '
+                                  '(<dir>/b for layout sibling, <dir>/src/build for layout nested), and compare the file',
+                           'layout': p.get('layout')})
         # command-line level tie to the model: order of the base section and of tests' depends
         facts = stats['facts']
         if facts.get('base_section'):
@@ -561,7 +570,8 @@ def run(ctx):
             if got != m and len(ctx.disagreements) < 200:
                 ctx.disagreements.append({'case': [what, pname], 'implementation': got.split(SEP2), 'model': m.split(SEP2)})
     ctx.cov['traces_validated_against_impl'] += compared + len(tie_cases)
-    ctx.extra.update({'cli_projects': len(projects), 'cli_invalid_projects': invalid, 'cli_meson_runs': runs,
+    ctx.extra.update({'cli_nested_build_dir_projects': sum(1 for q in projects if q.get('layout') == 'nested'),
+                      'cli_projects': len(projects), 'cli_invalid_projects': invalid, 'cli_meson_runs': runs,
                       'cli_file_comparisons': compared, 'cli_mtime_checked_files': mt, 'cli_model_ties': len(tie_cases),
                       'cli_projects_with_class': classes, 'cli_feature_use': feats,
                       'case_kinds': kinds,
